@@ -286,7 +286,22 @@ func runC09(env *lib.Env, rep *lib.Report) {
 	}
 	rec(0)
 	// keyword-led byte strings: a statement keyword followed by every byte string up to length 3
-	for _, lead := range []string{"select ", "select a from t where ", "insert into t values (", "create table t (a varchar(", "select a from t limit ", "update t set a = ", "select a from t group by "} {
+	leads := []string{"select ", "select a from t where ", "insert into t values (", "create table t (a varchar(", "select a from t limit ", "update t set a = ", "select a from t group by "}
+	// ... and, behind every word of the token vocabulary used as an operator, the inside of a string literal (a
+	// parser that starts to interpret what a literal says - a pattern, a date, a number - meets every short content)
+	var words []string
+	for _, name := range sql.Tokens {
+		if len(name) >= 2 && strings.Trim(name, "ABCDEFGHIJKLMNOPQRSTUVWXYZ") == "" {
+			words = append(words, name)
+		}
+	}
+	sort.Strings(words)
+	for _, kw := range words {
+		leads = append(leads, "select a from t where a "+kw+" '")
+	}
+	leads = append(leads, "select a from t where a = '", "select '", "insert into t values ('", "update t set a = '", "select a from t where 'x' = '")
+	rep.Bounds["(i-b) keyword-led byte strings"] = fmt.Sprintf("%d leads (statement prefixes; every upper-case word of the token vocabulary as an operator followed by an open string literal) x all strings of length <= 3", len(leads))
+	for _, lead := range leads {
 		var rec2 func(depth int)
 		rec2 = func(depth int) {
 			if r.mine() {
